@@ -562,7 +562,6 @@ func (inv *inventory) entriesAndTouches(rootSet map[string]bool) {
 		}
 		if len(byRow) == 0 {
 			inv.nEmpty++
-			continue
 		}
 		var list []touch
 		for _, tc := range byRow {
@@ -862,15 +861,33 @@ func (inv *inventory) lean() string {
 		ids = append(ids, fmt.Sprintf("class%d", i))
 	}
 	fmt.Fprintf(&sb, "\ndef classes : Array (List Touch) := #[%s]\n\n", strings.Join(ids, ", "))
-	sb.WriteString("/-- the entry points (exported functions and methods of the root packages) that touch a package-level variable, each with\nthe index of its touch class -/\ndef entries : List (String × Nat) := [\n")
-	for i, e := range inv.entries {
-		sep := ","
-		if i == len(inv.entries)-1 {
-			sep = ""
+	const chunk = 400
+	nchunks := 0
+	for i := 0; i < len(inv.entries); i += chunk {
+		fmt.Fprintf(&sb, "def entries%d : List (String × Nat) := [\n", nchunks)
+		end := i + chunk
+		if end > len(inv.entries) {
+			end = len(inv.entries)
 		}
-		fmt.Fprintf(&sb, "  (%s, %d)%s\n", lstr(e.name), e.class, sep)
+		for j := i; j < end; j++ {
+			sep := ","
+			if j == end-1 {
+				sep = ""
+			}
+			fmt.Fprintf(&sb, "  (%s, %d)%s\n", lstr(inv.entries[j].name), inv.entries[j].class, sep)
+		}
+		sb.WriteString("]\n")
+		nchunks++
 	}
-	sb.WriteString("]\n\n")
+	sb.WriteString("\n/-- the entry points (every exported function and method of the root packages), each with the index of its touch class\n(the class `[]`: its call graph touches no package-level variable) -/\ndef entries : List (String × Nat) := ")
+	var parts []string
+	for i := 0; i < nchunks; i++ {
+		parts = append(parts, fmt.Sprintf("entries%d", i))
+	}
+	if len(parts) == 0 {
+		parts = []string{"[]"}
+	}
+	sb.WriteString(strings.Join(parts, " ++ ") + "\n\n")
 	fmt.Fprintf(&sb, "def optionTypes : List String := %s\n\n", lstrs(inv.optTypes))
 	sb.WriteString("def paramWrites : List ParamWrite := [\n")
 	for i, w := range inv.pwrites {
